@@ -281,6 +281,14 @@ def random_case(rng, cid, repeat_sn=False):
   sn = rng.choice([0, 1, 1, 250, 255, 1000, 65530]) if not repeat_sn else rng.choice([0, 1, 100, 200])
   t = None
   nsub = rng.randint(1, 6) if rng.random() < 0.96 else rng.randint(40, 120)      # now and then a file of ordinary length
+  many_rows = nsub >= 40 and not tt and rng.random() < 0.6
+  if many_rows:
+    # open subtitles on a tall grid, placed all over it: dozens of distinct vertical positions (and regions) in one file
+    gsi["mnr"] = mnr = 99
+    cfg["rows"] = rows = "mnr"
+    cfg.pop("noconfig", None)
+    nrows = 99
+    nsub = rng.randint(100, 140)
   multi_sgn = rng.random() < 0.15
   flags["multi_sgn"] = multi_sgn
 
@@ -295,7 +303,7 @@ def random_case(rng, cid, repeat_sn=False):
     if rng.random() < 0.06:
       text = text + _word(rng, cct, 60) + [0x20] + _word(rng, cct, 70)      # long: forces extension blocks
       if rng.random() < 0.3:
-        for _ in range(rng.randint(2, 5)):                                     # very long: four and more extension blocks
+        for _ in range(rng.randint(2, 12)):                                    # very long: four to a dozen extension blocks
           text = text + [0x20] + _word(rng, cct, 90)
     chunks = split_tf(rng, text, cct)
     if len(chunks) > 1 and cf == 0:
@@ -325,7 +333,7 @@ def random_case(rng, cid, repeat_sn=False):
     r = rng.random()
     if r < 0.05:
       return rng.choice([0, nrows + 1, min(255, nrows + 5)])
-    if r < 0.5:
+    if r < 0.5 and not many_rows:
       return max(1, nrows - need + 1 - rng.choice([0, 0, 0, 1, 2]))
     return rng.randint(1, max(1, nrows - need + 1))
 
